@@ -467,6 +467,22 @@ PROPS = {
             {"kind": "rec", "profiles": ["release", "debug"], "other_profile_frac": 0.5, "scenario": "C13", "count": {"quick": 6000, "thorough": 150000}, "trace_module": "Trace_Bmoc", "trace_cfg": "Trace_Bmoc.cfg", "shards": 10},
         ],
     },
+    # Behaviour of the public API that none of the listed properties names, specified and checked all the same (DESIGN section 16).
+    # Not a property of the given list: not registered in MANIFEST.json, its evidence goes to out/extra-evidence/.
+    "X00": {
+        "level": "model_checking",
+        "claim": "to_range = the contiguous block of 4^delta descendant numbers (first / last descendant from the hierarchy of HpxGeo); nside / n_hash / "
+                 "nside_square / depth / is_depth / is_nside as arithmetic on the depth, refusals above depth 29 and on non powers of two; the "
+                 "accessors of MainWindMap on neighbour maps (values = the geometric neighbours, sorted_values increasing, entries = the "
+                 "neighbour map, all accessors agree); cone_coverage_approx_flat = the flat view of cone_coverage_approx.",
+        "rule": "events = to_range, sizes, sizes_bad, wind_map (Trace_Geo), cone with the clause flat_variant (Trace_Bmoc)",
+        "assumptions": GEO_ASSUME,
+        "stages": [
+            {"kind": "rec", "profiles": ["release", "debug"], "scenario": "EXTRA", "count": {"quick": 8000, "thorough": 200000}, "trace_module": "Trace_Geo", "trace_cfg": "Trace_Geo.cfg"},
+            {"kind": "rec", "profiles": ["release", "debug"], "other_profile_frac": 0.5, "scenario": "CONE", "count": {"quick": 3000, "thorough": 60000}, "trace_module": "Trace_Bmoc", "trace_cfg": "Trace_Bmoc.cfg",
+             "shards": 10, "clauses": ["panic", "flat_variant"]},
+        ],
+    },
     "C12": {
         "level": "exploration",
         "claim": "Decided by the specification: the result is well formed at the requested depth and, for every polygon vertex, some cell whose closure "
